@@ -55,14 +55,15 @@ type Op struct {
 	CID    int32    `json:"cid,omitempty"`
 	Notify string   `json:"notify,omitempty"`
 	PDU    bool     `json:"pdu,omitempty"`
+	MNC    string   `json:"mnc,omitempty"` // mobile network code of the consumer's PLMN ("" = 93; MCC is 208)
 	// EmptyRef: update / release addressed to the empty session reference (.../chargingdata//update)
-	EmptyRef bool `json:"emptyRef,omitempty"`
-	V6     bool     `json:"v6,omitempty"`    // consumer identified by IPv6 address and FQDN instead of an IPv4 address
-	NoPSI  bool     `json:"nopsi,omitempty"` // create: pDUSessionChargingInformation without pduSessionInformation (rejected after the record counter moved)
-	OTE    string   `json:"ote,omitempty"`   // create: one-time event of this type (IEC / PEC); opens no session
-	Raw    string   `json:"raw,omitempty"`   // raw JSON body override
-	Path   string   `json:"path,omitempty"`
-	Method string   `json:"method,omitempty"`
+	EmptyRef bool   `json:"emptyRef,omitempty"`
+	V6       bool   `json:"v6,omitempty"`    // consumer identified by IPv6 address and FQDN instead of an IPv4 address
+	NoPSI    bool   `json:"nopsi,omitempty"` // create: pDUSessionChargingInformation without pduSessionInformation (rejected after the record counter moved)
+	OTE      string `json:"ote,omitempty"`   // create: one-time event of this type (IEC / PEC); opens no session
+	Raw      string `json:"raw,omitempty"`   // raw JSON body override
+	Path     string `json:"path,omitempty"`
+	Method   string `json:"method,omitempty"`
 }
 
 func (o Op) String() string {
@@ -110,6 +111,9 @@ func (o Op) Request(supi string) models.ChfConvergedChargingChargingDataRequest 
 		ChargingId:               o.CID,
 		NfConsumerIdentification: &models.ChfConvergedChargingNfIdentification{NFName: o.Cons, NodeFunctionality: "SMF",
 			NFIPv4Address: "10.0.0.7", NFPLMNID: &models.PlmnId{Mcc: "208", Mnc: "93"}},
+	}
+	if o.MNC != "" {
+		r.NfConsumerIdentification.NFPLMNID.Mnc = o.MNC
 	}
 	if o.K != "create" && o.Notify != "" {
 		r.NotifyUri = o.Notify
@@ -186,6 +190,7 @@ type Sess struct {
 	Supi      string          `json:"supi"`
 	Ref       string          `json:"ref"`
 	Loc       string          `json:"loc,omitempty"` // the Location header of the create, as received
+	MNC       string          `json:"mnc,omitempty"`
 	Cons      string          `json:"cons"`
 	Live      bool            `json:"live"`
 	LastGrant map[int32]int32 `json:"lastGrant"`
@@ -348,7 +353,7 @@ func (w *World) execInto(supis []string, h *HistRun, ops []Op, snapFrom int, wit
 			st.Resp = w.Do("POST", ccBase+"/chargingdata", body, nil)
 			if st.Resp.Code == 201 && op.OTE == "" {
 				h.Sess = append(h.Sess, &Sess{U: op.U, Supi: supi, Ref: refOf(st.Resp.Location), Loc: st.Resp.Location, Cons: op.Cons, Live: true,
-					LastGrant: map[int32]int32{}, CID: op.CID, CreatedAt: i, Notify: op.Notify})
+					LastGrant: map[int32]int32{}, CID: op.CID, CreatedAt: i, Notify: op.Notify, MNC: op.MNC})
 				se = h.Sess[len(h.Sess)-1]
 			}
 		case "fill":
@@ -398,9 +403,17 @@ func (w *World) execInto(supis []string, h *HistRun, ops []Op, snapFrom int, wit
 		st.VT = time.Since(t0).Milliseconds()
 		st.Units, st.SeqNo, st.HasTS = parseUnits(st.Resp.Body)
 		if se != nil && st.Resp.Code/100 == 2 {
+			// (a rating group named by several unit-usage entries of one request is granted once per entry: the consumer
+			// holds the sum)
+			seenRG := map[int32]bool{}
 			for _, u := range st.Units {
 				if u.Granted >= 0 {
-					se.LastGrant[u.RG] = u.Granted
+					if seenRG[u.RG] {
+						se.LastGrant[u.RG] += u.Granted
+					} else {
+						se.LastGrant[u.RG] = u.Granted
+					}
+					seenRG[u.RG] = true
 				}
 			}
 			for _, m := range op.MUs {
